@@ -328,21 +328,36 @@ def r4_one_kind_per_name(ctx, rule="C13.R4"):
     if len(on_const) != 1:
         raise CheckError("anchor const_rules::on_const")
     oc = on_const[0]
-    order = [mir.callee_path(t).split("::")[-1] for b in oc.body.rpo() for t in [oc.body.term(b)] if t["k"] == "call"]
-    chk = [i for i, n in enumerate(order) if n == "const_cannot_clash_with_existing_names"]
-    ins = [i for i, n in enumerate(order) if n == "new_const"]
-    blocks = {mir.callee_path(t).split("::")[-1]: b for b, t in oc.body.calls()}
-    dom = ("const_cannot_clash_with_existing_names" in blocks and "new_const" in blocks and
-           oc.body.dominates(blocks["const_cannot_clash_with_existing_names"], blocks["new_const"]))
-    ctx.decide(bool(chk and ins) and dom, rule, rule + ":const:clash-check-dominates-insert", oc.loc,
-               "const_cannot_clash_with_existing_names dominates new_const",
-               "a CONST is inserted without the clash check on every path")
-    clash = [f for f in prog.fns.values() if f.name == "const_cannot_clash_with_existing_names"]
-    names = {mir.callee_path(t).split("::")[-1] for f in [clash[0]] + prog.closures_of(clash[0]) for _b, t in f.body.calls()}
-    ctx.decide({"contains_any_locally_or_contains_extended_recursively", "contains_key"} <= names, rule,
-               rule + ":const:clash-check-covers-names-subs-functions", clash[0].loc,
+    # found by what they do, in on_const itself or in private helpers of its file: the three
+    # look-ups (names, subs, functions) and the call that inserts the constant
+    def deep_names(t):
+        out = {mir.callee_path(t).split("::")[-1]}
+        g = prog.fns.get(t.get("res") or mir.callee_of(t))
+        if g is not None and g.file == oc.file and g.id != oc.id:
+            for h in [g] + prog.closures_of(g):
+                out |= {mir.callee_path(t2).split("::")[-1] for _b2, t2 in h.body.calls()}
+        return out
+    sites = [(b, deep_names(t)) for b, t in oc.body.calls()]
+    ins = [b for b, ns in sites if any(n.startswith("insert") for n in ns)]
+    look = {"contains_any_locally_or_contains_extended_recursively": [b for b, ns in sites if "contains_any_locally_or_contains_extended_recursively" in ns],
+            "contains_key": [b for b, ns in sites if "contains_key" in ns]}
+    missing = [k for k, bs in look.items() if not bs]
+    dom = bool(ins) and not missing and all(any(oc.body.dominates(b, i) for b in bs) for bs in look.values() for i in ins)
+    ctx.decide(dom, rule, rule + ":const:clash-check-dominates-insert", oc.loc,
+               "the look-ups of names, subs and functions dominate the insertion of the constant",
+               "a CONST is inserted without the clash check on every path (look-ups missing: %s)" % missing)
+    n_keys = sum(1 for b, t in oc.body.calls() for n in [0]
+                 if "contains_key" in deep_names(t) and mir.callee_path(t).split("::")[-1] == "contains_key")
+    helper_keys = 0
+    for b, t in oc.body.calls():
+        g = prog.fns.get(t.get("res") or mir.callee_of(t))
+        if g is not None and g.file == oc.file and g.id != oc.id:
+            helper_keys = max(helper_keys, sum(1 for h in [g] + prog.closures_of(g) for _b2, t2 in h.body.calls()
+                                               if mir.callee_path(t2).split("::")[-1] == "contains_key"))
+    ctx.decide(not missing and max(n_keys, helper_keys) >= 2, rule,
+               rule + ":const:clash-check-covers-names-subs-functions", oc.loc,
                "checks variables/constants, subs and functions",
-               "the CONST clash check consults only %s" % sorted(names))
+               "the CONST clash check does not consult names, subs and functions (%d contains_key look-ups)" % max(n_keys, helper_keys))
     ctx.require(rule, 5)
 
 
@@ -373,6 +388,46 @@ def r5_local_before_global(ctx, rule="C13.R5"):
                    "%s consults the global scope before the current scope: a local CONST/variable no "
                    "longer shadows a global one of the same name" % fn.name)
     ctx.require(rule, 5)
+
+
+def _early_return_fallback(prog, fn):
+    """The same rule in its statement form: `if let Some(x) = self.names().M(..) { return Some(x) }`,
+    then `self.global_names()` and the same M on what it yields.  The global scope is reached only on
+    the None side of the test of the local look-up, and nothing else decides before it."""
+    body = fn.body
+    pv = mir.Prov(body)
+    local = glob = None
+    second = []
+    for b, t in body.calls():
+        nm = mir.callee_path(t).split("::")[-1]
+        if nm == "global_names":
+            glob = b
+        if nm in ("get_compact", "get_extended", "get_const_value") and t["args"]:
+            recv = mir.strip_refs(pv.of_operand(t["args"][0]))
+            base = recv[1].split("::")[-1] if recv[0] == "call" else ""
+            if base == "names" and local is None:
+                local = (b, nm, t)
+            else:
+                second.append((b, nm, t))
+    if local is None or glob is None or not second:
+        return False, ""
+    lb, m, lt = local
+    # the switch on the discriminant of the local result
+    nxt = lt["t"]
+    sws = [sw for sw in mir.enum_switches(prog, body) if sw.adt.endswith("option::Option") and body.dominates(lb, sw.bb)
+           and mir.origin_mentions(pv.of_place(sw.place), lambda z: z[0] == "call" and z[1].split("::")[-1] == m)]
+    if not sws:
+        return False, ""
+    sw = sws[0]
+    none_t = sw.arms.get("None", sw.otherwise)
+    some_t = sw.arms.get("Some", sw.otherwise)
+    if none_t is None or some_t is None or none_t == some_t:
+        return False, ""
+    only_on_none = glob in body.reachable(none_t, avoid={some_t}) and glob not in body.reachable(some_t, avoid={none_t})
+    same_lookup = all(nm == m for _b, nm, _t in second) and all(b2 in body.reachable(glob) for b2, _n, _t in second)
+    # nothing decides between entry and the local look-up
+    first = body.every_path_passes(0, body.exits(), {lb})
+    return bool(only_on_none and same_lookup and first), m
 
 
 def r6_fallback_keyed_on_same_lookup(ctx, rule="C13.R6"):
@@ -412,6 +467,8 @@ def r6_fallback_keyed_on_same_lookup(ctx, rule="C13.R6"):
                 # nothing else decides: the or_else call is reached on every path from entry
                 ok = all(fn.body.every_path_passes(0, fn.body.exits(), {b}) for _ in [0])
                 detail = m
+        if not ok:
+            ok, detail = _early_return_fallback(prog, fn)
         ctx.decide(ok, rule, "%s:%s" % (rule, fn.name), fn.loc,
                    "names().%s(..).or_else(global %s)" % (detail, detail),
                    "%s does not fall back to the global scope exactly when its own lookup misses locally "
